@@ -13,7 +13,7 @@ ENTRIES = []
 RULE = ("1-4 datasets of random kind (S, Q[S-1], F_K, DCS), per-dataset Qmin/Qmax (60%), Y scale/offset (55%), Q offset (50%, "
         "multiples and non-multiples of 0.01, positive and negative), global Qmin/Qmax window (50% each); after every add_dataset both "
         "storage arrays are compared with an independent recomputation of the statement; non-trivial = a Q offset or a global window present")
-DIST = ["nd", "window", "offset", "shared_info", "reject_at", "edge_window"]
+DIST = ["nd", "window", "offset", "shared_info", "reject_at", "edge_window", "lone_origin"]
 SHRINK = None
 
 
@@ -27,6 +27,12 @@ def gen(rng, i, tier):
         for d in ds[:2]:
             d["X"] = {"Offset": float(rng.choice([-0.3, -1.5, -0.25]))}
             d.pop("Qmin", None)
+    lone = False
+    if rng.random() < 0.06:
+        ds.insert(int(rng.integers(0, len(ds) + 1)), sc.lone_origin_point(rng))
+        nd, lone = len(ds), True
+        if qmin not in (None, 0.0):
+            qmin = 0.0
     edge = False
     if qmin != 0.0 and rng.random() < 0.25:
         # the global window read off an offset curve: its bounds coincide with offset Q values (points on the edge are inside)
@@ -45,7 +51,7 @@ def gen(rng, i, tier):
     # a dataset whose kind is not one of the four choices is rejected with ValueError; the caller carries on with the same object
     reject_at = int(rng.integers(0, nd + 1)) if rng.random() < 0.2 else None
     return dict(datasets=ds, qmin=qmin, qmax=qmax, bcoh=float(rng.uniform(1, 5)), btot=float(rng.uniform(1, 5)), nd=nd,
-                window=(qmin is not None, qmax is not None), offset=any("X" in d for d in ds), shared_info=shared, reject_at=reject_at, edge_window=edge)
+                window=(qmin is not None, qmax is not None), offset=any("X" in d for d in ds), shared_info=shared, reject_at=reject_at, edge_window=edge, lone_origin=lone)
 
 
 def build(case, order=None):
